@@ -3,7 +3,7 @@
    coherent state and for every request, the writes of write() are the journal nj with `entries_match c nj` (each
    entry carries the device's registers 0x1F / 0x20 / 0x2F at the instant of that write) and `entry_ok` true for
    every entry.  This file states what that means for C07, against the datasheet's parameter-owner table.
-   PARTIAL: the wake-up builder (parameters 0x30-0x33) has no generated theorem yet (DESIGN.md). *)
+   All 12 builder bodies have a generated theorem (side condition: shadow and request bytes below 256, a u8 typing fact). *)
 Require Import BMA.lib.Base BMA.lib.Reflect BMA.gen.GenTypes BMA.gen.GenPure BMA.lib.Prog BMA.gen.GenProg BMA.gen.GenMeta
                BMA.gen.GenLens BMA.lib.Run BMA.proofs.Generic BMA.proofs.Symex BMA.proofs.BuilderSpec BMA.proofs.Builders
                BMA.proofs.SymexLink BMA.proofs.BuilderCor BMA.spec.Datasheet BMA.spec.BuilderProps.
@@ -16,7 +16,7 @@ Fixpoint chip_before (c : chip) (l : list jw) (i : nat) : chip :=
   | _, _ => c
   end.
 
-Theorem c07_partial_meaning : forall blk d reqf nj c i e,
+Theorem c07_meaning : forall blk d reqf nj c i e,
   forallb (entry_ok blk d reqf) nj = true -> entries_match c nj -> nth_error nj i = Some e ->
   forall p en m, In (p, en, m) ds_param_owner -> p = jw_addr e -> In en ENABLES ->
     N.land (regs (chip_before c nj i) en) m = 0.
